@@ -5,7 +5,7 @@
    D  C18 callbacks;
    E  C10 login;
    F  C05/C06 timeouts and loss. *)
-From Scrapli Require Import Bytes Regex PlatformTypes Generated Channel Network Session ChanTrace.
+From Scrapli Require Import Bytes BytesLemmas Regex PlatformTypes Generated Channel Network Session ChanTrace.
 Open Scope N_scope.
 
 (* ---------- small facts on byte strings ---------- *)
@@ -183,4 +183,399 @@ Proof.
   destruct (s_pc st) eqn:E; inversion Ho; subst.
   - apply residual_ret; auto.
   - apply residual_fail; auto.
+Qed.
+
+(* ====================================================================== *)
+(* inversion of traces (used everywhere below)                             *)
+(* ====================================================================== *)
+Section Inv.
+  Variable cfg : chan_cfg.
+  Context {R : Type}.
+  Implicit Types (p k : prog R) (t : list obs).
+
+  Lemma ptrace_ret_inv r t : ptrace cfg (Ret r : prog R) t -> t = [].
+  Proof. inversion 1; auto. Qed.
+  Lemma ptrace_fail_inv e t : ptrace cfg (Fail e : prog R) t -> t = [].
+  Proof. inversion 1; auto. Qed.
+  Lemma ptrace_write_inv b r k t : ptrace cfg (Write b r k) t ->
+    t = [] \/ exists t', t = OWrite b r :: t' /\ ptrace cfg k t'.
+  Proof. inversion 1; subst; eauto. Qed.
+  Lemma ptrace_note_inv tg d k t : ptrace cfg (Note tg d k) t ->
+    t = [] \/ exists t', t = ONote tg d :: t' /\ ptrace cfg k t'.
+  Proof. inversion 1; subst; eauto. Qed.
+  Lemma ptrace_requeue_inv b k t : ptrace cfg (Requeue b k) t ->
+    t = [] \/ exists t', t = ORequeue b :: t' /\ ptrace cfg k t'.
+  Proof. inversion 1; subst; eauto. Qed.
+  Lemma ptrace_until_inv c (k : bytes -> prog R) h t : ptrace cfg (Until c k h) t ->
+    t = [] \/ (exists rb t', t = ORead c rb :: t' /\ cond_holds cfg c rb = true /\ ptrace cfg (k rb) t')
+    \/ (exists e t', t = OErr c e :: t' /\ ptrace cfg (h e) t').
+  Proof. inversion 1; subst; eauto 8. Qed.
+
+  Lemma ctrace_ret_inv r t o : ctrace cfg (Ret r : prog R) t o -> t = [] /\ o = inl r.
+  Proof. inversion 1; auto. Qed.
+  Lemma ctrace_fail_inv e t o : ctrace cfg (Fail e : prog R) t o -> t = [] /\ o = inr e.
+  Proof. inversion 1; auto. Qed.
+  Lemma ctrace_write_inv b r k t o : ctrace cfg (Write b r k) t o ->
+    exists t', t = OWrite b r :: t' /\ ctrace cfg k t' o.
+  Proof. inversion 1; subst; eauto. Qed.
+  Lemma ctrace_note_inv tg d k t o : ctrace cfg (Note tg d k) t o ->
+    exists t', t = ONote tg d :: t' /\ ctrace cfg k t' o.
+  Proof. inversion 1; subst; eauto. Qed.
+  Lemma ctrace_requeue_inv b k t o : ctrace cfg (Requeue b k) t o ->
+    exists t', t = ORequeue b :: t' /\ ctrace cfg k t' o.
+  Proof. inversion 1; subst; eauto. Qed.
+  Lemma ctrace_until_inv c (k : bytes -> prog R) h t o : ctrace cfg (Until c k h) t o ->
+    (exists rb t', t = ORead c rb :: t' /\ cond_holds cfg c rb = true /\ ctrace cfg (k rb) t' o)
+    \/ (exists e t', t = OErr c e :: t' /\ ctrace cfg (h e) t' o).
+  Proof. inversion 1; subst; eauto 8. Qed.
+End Inv.
+
+(* [pinv H]: invert a [ptrace]/[ctrace] hypothesis whose program has a visible head constructor *)
+Ltac pinv H :=
+  let t' := fresh "t" in let rb := fresh "rb" in let e := fresh "e" in let Hc := fresh "Hc" in
+  lazymatch type of H with
+  | ptrace _ (Ret _) _ => apply ptrace_ret_inv in H; subst
+  | ptrace _ (Fail _) _ => apply ptrace_fail_inv in H; subst
+  | ptrace _ (Write _ _ _) _ => apply ptrace_write_inv in H; destruct H as [H | [t' [? H]]]; subst
+  | ptrace _ (Note _ _ _) _ => apply ptrace_note_inv in H; destruct H as [H | [t' [? H]]]; subst
+  | ptrace _ (Requeue _ _) _ => apply ptrace_requeue_inv in H; destruct H as [H | [t' [? H]]]; subst
+  | ptrace _ (Until _ _ _) _ =>
+      apply ptrace_until_inv in H; destruct H as [H | [[rb [t' [? [Hc H]]]] | [e [t' [? H]]]]]; subst
+  | ctrace _ (Ret _) _ _ => apply ctrace_ret_inv in H; destruct H; subst
+  | ctrace _ (Fail _) _ _ => apply ctrace_fail_inv in H; destruct H; subst
+  | ctrace _ (Write _ _ _) _ _ => apply ctrace_write_inv in H; destruct H as [t' [? H]]; subst
+  | ctrace _ (Note _ _ _) _ _ => apply ctrace_note_inv in H; destruct H as [t' [? H]]; subst
+  | ctrace _ (Requeue _ _) _ _ => apply ctrace_requeue_inv in H; destruct H as [t' [? H]]; subst
+  | ctrace _ (Until _ _ _) _ _ =>
+      apply ctrace_until_inv in H; destruct H as [[rb [t' [? [Hc H]]]] | [e [t' [? H]]]]; subst
+  end.
+
+(* ====================================================================== *)
+(* D.  C18 — callbacks                                                     *)
+(* ====================================================================== *)
+
+Theorem cb_check_is_spec : forall c b, cb_check c b = spec_trigger c b.
+Proof.
+  intros c b. unfold cb_check, spec_trigger. cbv zeta.
+  destruct (match cb_contains c with [] => false | _ :: _ => _ end);
+  destruct (match cb_re c with Some _ => _ | None => false end);
+  destruct (match cb_not_contains c with [] => false | _ :: _ => _ end); reflexivity.
+Qed.
+
+Lemma first_firing_some_gen : forall cbs b n i c,
+  first_firing cbs b n = Some (i, c) ->
+  (n <= i)%nat /\ nth_error cbs (i - n) = Some c /\ cb_check c b = true
+  /\ forall j c', (j < i - n)%nat -> nth_error cbs j = Some c' -> cb_check c' b = false.
+Proof.
+  induction cbs as [|c0 cbs IH]; simpl; intros b n i c H; [discriminate|].
+  destruct (cb_check c0 b) eqn:E.
+  - inversion H; subst. rewrite Nat.sub_diag. simpl. repeat split; auto. intros; lia.
+  - apply IH in H. destruct H as [H1 [H2 [H3 H4]]].
+    replace (i - n)%nat with (S (i - S n)) by lia. simpl. repeat split; auto; try lia.
+    intros [|j] c' Hj Hn; simpl in Hn.
+    + inversion Hn; subst; auto.
+    + eapply H4; eauto. lia.
+Qed.
+
+Theorem first_firing_spec : forall cbs b i c,
+  first_firing cbs b 0 = Some (i, c) ->
+  nth_error cbs i = Some c /\ cb_check c b = true
+  /\ forall j c', (j < i)%nat -> nth_error cbs j = Some c' -> cb_check c' b = false.
+Proof.
+  intros cbs b i c H. apply first_firing_some_gen in H. rewrite Nat.sub_0_r in H. tauto.
+Qed.
+
+Theorem first_firing_none : forall cbs b n,
+  first_firing cbs b n = None <-> (forall c, In c cbs -> cb_check c b = false).
+Proof.
+  induction cbs as [|c0 cbs IH]; simpl; intros b n.
+  - split; auto. intros _ c [].
+  - destruct (cb_check c0 b) eqn:E.
+    + split; [discriminate|]. intros H. rewrite (H c0) in E; auto. discriminate.
+    + rewrite IH. split.
+      * intros H c [->|Hin]; auto.
+      * intros H c Hin; auto.
+Qed.
+
+(* the body of one callback execution, as [cb_loop] builds it *)
+Definition cb_exec (f : nat) (cfg : chan_cfg) (cbs : list callback) (fired : list nat)
+           (i : nat) (c : callback) (b fb : bytes) : prog bytes :=
+  if cb_once c && existsb (Nat.eqb i) fired then Fail EOperation
+  else
+    let fired' := if cb_once c then i :: fired else fired in
+    Note TAG_CB (print_dec (N.of_nat i) ++ [58] ++ b)
+      ((match cb_answer c with
+        | Some a => fun k => Write a false (Write (c_ret cfg) false k)
+        | None => fun k => k
+        end)
+         (if cb_complete c then Ret fb
+          else cb_loop f cfg cbs (if cb_reset c then [] else b) fb fired')).
+
+Lemma cb_loop_S f cfg cbs b fb fired :
+  cb_loop (S f) cfg cbs b fb fired =
+  match first_firing cbs b 0 with
+  | Some (i, c) => cb_exec f cfg cbs fired i c b fb
+  | None =>
+      Until (CCallbacks cbs b)
+            (fun rb => match first_firing cbs (b ++ rb) 0 with
+                       | Some (i, c) => cb_exec f cfg cbs fired i c (b ++ rb) (fb ++ rb)
+                       | None => Fail EOperation
+                       end) Fail
+  end.
+Proof. reflexivity. Qed.
+
+Lemma Forall_notes_cons P o t :
+  Forall P (notes_of [o]) -> Forall P (notes_of t) -> Forall P (notes_of (o :: t)).
+Proof.
+  intros H1 H2. change (o :: t) with ([o] ++ t). rewrite notes_of_app. apply Forall_app; auto.
+Qed.
+
+Section CbFire.
+  Variable cfg : chan_cfg.
+  Variable cbs : list callback.
+  Let P := fun nt : N * bytes => fst nt = TAG_CB -> cb_note_ok cbs (snd nt).
+
+  Lemma cb_exec_fire_right f fired i c b fb :
+    (forall b fb fired t, ptrace cfg (cb_loop f cfg cbs b fb fired) t -> Forall P (notes_of t)) ->
+    first_firing cbs b 0 = Some (i, c) ->
+    forall t, ptrace cfg (cb_exec f cfg cbs fired i c b fb) t -> Forall P (notes_of t).
+  Proof.
+    intros IH Hff t H. unfold cb_exec in H.
+    destruct (cb_once c && existsb (Nat.eqb i) fired); [pinv H; constructor|].
+    cbv zeta in H. pinv H; [constructor|].
+    apply Forall_notes_cons.
+    - simpl. constructor; [|constructor]. intros _. simpl.
+      apply first_firing_spec in Hff. destruct Hff as [H1 [H2 H3]].
+      exists i, b, c. auto.
+    - assert (Hk : forall t, ptrace cfg (if cb_complete c then Ret fb
+                     else cb_loop f cfg cbs (if cb_reset c then [] else b) fb
+                                  (if cb_once c then i :: fired else fired)) t -> Forall P (notes_of t)).
+      { intros t' Ht'. destruct (cb_complete c); [pinv Ht'; constructor | eapply IH; eauto]. }
+      destruct (cb_answer c).
+      + pinv H; [constructor|]. pinv H; [constructor|]. simpl. apply Hk; auto.
+      + apply Hk; auto.
+  Qed.
+
+  Lemma cb_loop_fire_right : forall fuel b fb fired t,
+    ptrace cfg (cb_loop fuel cfg cbs b fb fired) t -> Forall P (notes_of t).
+  Proof.
+    induction fuel as [|f IH]; intros b fb fired t H.
+    - simpl in H. pinv H. constructor.
+    - rewrite cb_loop_S in H. destruct (first_firing cbs b 0) as [[i c]|] eqn:Hff.
+      + eapply cb_exec_fire_right; eauto.
+      + pinv H; [constructor| |].
+        * simpl. destruct (first_firing cbs (b ++ rb) 0) as [[i c]|] eqn:Hff'.
+          -- eapply cb_exec_fire_right; eauto.
+          -- pinv H; constructor.
+        * pinv H. constructor.
+  Qed.
+End CbFire.
+
+Theorem callbacks_fire_right : forall cfg input cbs t,
+  ptrace cfg (send_with_callbacks cfg input cbs) t ->
+  Forall (fun nt => fst nt = TAG_CB -> cb_note_ok cbs (snd nt)) (notes_of t).
+Proof.
+  intros cfg input cbs t H. unfold send_with_callbacks in H.
+  destruct input.
+  - eapply cb_loop_fire_right; eauto.
+  - pinv H; [constructor|]. pinv H; [constructor|]. simpl. eapply cb_loop_fire_right; eauto.
+Qed.
+
+(* ---------- which callback a TAG_CB note belongs to ---------- *)
+Lemma is_prefix_colon (a a' b : bytes) :
+  ~ In 58 a -> ~ In 58 a' -> is_prefix (a ++ [58]) (a' ++ [58] ++ b) = true -> a = a'.
+Proof.
+  revert a'; induction a as [|x a IH]; intros [|y a'] Ha Ha'; cbn [app is_prefix]; intros H; auto.
+  - apply andb_true_iff in H. destruct H as [H _]. apply N.eqb_eq in H. subst. exfalso; apply Ha'; left; auto.
+  - apply andb_true_iff in H. destruct H as [H _]. apply N.eqb_eq in H. subst. exfalso; apply Ha; left; auto.
+  - apply andb_true_iff in H. destruct H as [H1 H2]. apply N.eqb_eq in H1. subst. f_equal.
+    apply IH; auto; intros Hin; [apply Ha | apply Ha']; right; auto.
+Qed.
+
+Lemma print_dec_no_colon n : ~ In 58 (print_dec n).
+Proof. apply print_dec_not_in. lia. Qed.
+
+Lemma print_dec_inj n n' : print_dec n = print_dec n' -> n = n'.
+Proof.
+  intros H. assert (E : parse_dec (print_dec n) = parse_dec (print_dec n')) by (rewrite H; auto).
+  rewrite !parse_print_dec in E. inversion E; auto.
+Qed.
+
+Definition is_cb_note (i : nat) (nt : N * bytes) : bool :=
+  (fst nt =? TAG_CB) && is_prefix (print_dec (N.of_nat i) ++ [58]) (snd nt).
+
+Lemma is_cb_note_iff i j b :
+  is_cb_note i (TAG_CB, print_dec (N.of_nat j) ++ [58] ++ b) = true <-> i = j.
+Proof.
+  unfold is_cb_note. simpl fst. simpl snd. rewrite N.eqb_refl. rewrite andb_true_l. split.
+  - intros H. apply is_prefix_colon in H; try apply print_dec_no_colon.
+    apply print_dec_inj in H. apply Nat2N.inj in H. auto.
+  - intros ->. change (58 :: b) with ([58] ++ b). rewrite app_assoc. apply is_prefix_refl_app.
+Qed.
+
+(* how often callback [i] ran *)
+Definition cb_fired_count (i : nat) (t : list obs) : nat := length (filter (is_cb_note i) (notes_of t)).
+
+Lemma cb_fired_count_cons i o t :
+  cb_fired_count i (o :: t) = (cb_fired_count i [o] + cb_fired_count i t)%nat.
+Proof.
+  unfold cb_fired_count. change (o :: t) with ([o] ++ t).
+  rewrite notes_of_app, filter_app, app_length. reflexivity.
+Qed.
+
+Section CbOnce.
+  Variable cfg : chan_cfg.
+  Variable cbs : list callback.
+  Let bound (i : nat) (fired : list nat) : nat := if existsb (Nat.eqb i) fired then 0%nat else 1%nat.
+  Let Q (fired : list nat) (t : list obs) : Prop :=
+    forall i c, nth_error cbs i = Some c -> cb_once c = true -> (cb_fired_count i t <= bound i fired)%nat.
+
+  Lemma Q_nil fired : Q fired [].
+  Proof. intros i c _ _. unfold cb_fired_count. simpl. lia. Qed.
+
+  Lemma Q_write fired b r t : Q fired t -> Q fired (OWrite b r :: t).
+  Proof. intros H i c H1 H2. rewrite cb_fired_count_cons. specialize (H i c H1 H2). unfold cb_fired_count at 1. simpl. lia. Qed.
+  Lemma Q_read fired c0 rb t : Q fired t -> Q fired (ORead c0 rb :: t).
+  Proof. intros H i c H1 H2. rewrite cb_fired_count_cons. specialize (H i c H1 H2). unfold cb_fired_count at 1. simpl. lia. Qed.
+  Lemma Q_err fired c0 e t : Q fired t -> Q fired (OErr c0 e :: t).
+  Proof. intros H i c H1 H2. rewrite cb_fired_count_cons. specialize (H i c H1 H2). unfold cb_fired_count at 1. simpl. lia. Qed.
+
+  Lemma cb_exec_once f fired i c b fb :
+    (forall b fb fired t, ptrace cfg (cb_loop f cfg cbs b fb fired) t -> Q fired t) ->
+    nth_error cbs i = Some c ->
+    forall t, ptrace cfg (cb_exec f cfg cbs fired i c b fb) t -> Q fired t.
+  Proof.
+    intros IH Hn t H. unfold cb_exec in H.
+    destruct (cb_once c && existsb (Nat.eqb i) fired) eqn:Eo; [pinv H; apply Q_nil|].
+    cbv zeta in H. pinv H; [apply Q_nil|].
+    assert (Hk : forall t, ptrace cfg (if cb_complete c then Ret fb
+                   else cb_loop f cfg cbs (if cb_reset c then [] else b) fb
+                                (if cb_once c then i :: fired else fired)) t ->
+                 Q (if cb_once c then i :: fired else fired) t).
+    { intros t' Ht'. destruct (cb_complete c); [pinv Ht'; apply Q_nil | eapply IH; eauto]. }
+    assert (Hk' : Q (if cb_once c then i :: fired else fired) t0).
+    { destruct (cb_answer c).
+      - pinv H; [apply Q_nil|]. pinv H; [apply Q_nil|]. apply Q_write, Q_write, Hk; auto.
+      - apply Hk; auto. }
+    clear Hk H. intros j cj Hj Hoj. rewrite cb_fired_count_cons.
+    specialize (Hk' j cj Hj Hoj). unfold bound in *.
+    unfold cb_fired_count at 1.
+    change (notes_of [ONote TAG_CB (print_dec (N.of_nat i) ++ [58] ++ b)])
+      with [(TAG_CB, print_dec (N.of_nat i) ++ [58] ++ b)].
+    cbn [filter].
+    destruct (is_cb_note j (TAG_CB, print_dec (N.of_nat i) ++ [58] ++ b)) eqn:Ej.
+    - apply is_cb_note_iff in Ej. subst j. rewrite Hn in Hj. inversion Hj; subst cj.
+      rewrite Hoj in *. simpl in Eo. rewrite Eo. simpl existsb in Hk'. rewrite Nat.eqb_refl in Hk'.
+            simpl in *. lia.
+    - assert (Hne : j <> i).
+      { intros ->. rewrite (proj2 (is_cb_note_iff i i b)) in Ej; auto. discriminate. }
+      destruct (cb_once c); auto. simpl existsb in Hk'.
+      apply Nat.eqb_neq in Hne. rewrite Hne in Hk'. simpl in *. auto.
+  Qed.
+
+  Lemma cb_loop_once : forall fuel b fb fired t,
+    ptrace cfg (cb_loop fuel cfg cbs b fb fired) t -> Q fired t.
+  Proof.
+    induction fuel as [|f IH]; intros b fb fired t H.
+    - simpl in H. pinv H. apply Q_nil.
+    - rewrite cb_loop_S in H. destruct (first_firing cbs b 0) as [[i c]|] eqn:Hff.
+      + apply first_firing_spec in Hff. eapply cb_exec_once; eauto. tauto.
+      + pinv H; [apply Q_nil| |].
+        * apply Q_read. destruct (first_firing cbs (b ++ rb) 0) as [[i c]|] eqn:Hff'.
+          -- apply first_firing_spec in Hff'. eapply cb_exec_once; eauto. tauto.
+          -- pinv H; apply Q_nil.
+        * pinv H. apply Q_err, Q_nil.
+  Qed.
+End CbOnce.
+
+(* a once-callback appears at most once among the TAG_CB notes of any trace *)
+Theorem callbacks_once : forall cfg input cbs t i c,
+  ptrace cfg (send_with_callbacks cfg input cbs) t ->
+  nth_error cbs i = Some c -> cb_once c = true -> (cb_fired_count i t <= 1)%nat.
+Proof.
+  intros cfg input cbs t i c H Hn Ho. unfold send_with_callbacks in H.
+  assert (G : forall t, ptrace cfg (cb_loop 64 cfg cbs [] [] []) t -> (cb_fired_count i t <= 1)%nat).
+  { intros t' H'. apply (cb_loop_once cfg cbs 64 [] [] [] t' H' i c Hn Ho). }
+  destruct input.
+  - apply G; auto.
+  - pinv H; [unfold cb_fired_count; simpl; lia|]. pinv H; [unfold cb_fired_count; simpl; lia|].
+    specialize (G _ H). unfold cb_fired_count in *. simpl. exact G.
+Qed.
+
+(* its second firing ends the operation with an error before any note is written *)
+Lemma cb_exec_second_firing f cfg cbs fired i c b fb :
+  cb_once c = true -> In i fired -> cb_exec f cfg cbs fired i c b fb = Fail EOperation.
+Proof.
+  intros Ho Hin. unfold cb_exec. rewrite Ho. simpl.
+  replace (existsb (Nat.eqb i) fired) with true; auto.
+  symmetry. apply existsb_exists. exists i. split; auto. apply Nat.eqb_refl.
+Qed.
+
+(* ---------- the dialogue returned ---------- *)
+Definition reads_of (t : list obs) : bytes :=
+  flat_map (fun o => match o with ORead _ rb => rb | _ => [] end) t.
+
+Section CbComplete.
+  Variable cfg : chan_cfg.
+  Variable cbs : list callback.
+  Let G (fb : bytes) (t : list obs) (r : bytes) : Prop :=
+    r = fb ++ reads_of t
+    /\ exists n0 i c bb, notes_of t = n0 ++ [(TAG_CB, print_dec (N.of_nat i) ++ [58] ++ bb)]
+                         /\ nth_error cbs i = Some c /\ cb_complete c = true.
+
+  Lemma G_write fb b r0 t r : G fb t r -> G fb (OWrite b r0 :: t) r.
+  Proof. intros H; exact H. Qed.
+
+  Lemma cb_exec_complete f fired i c b fb :
+    (forall b fb fired t r, ctrace cfg (cb_loop f cfg cbs b fb fired) t (inl r) -> G fb t r) ->
+    nth_error cbs i = Some c ->
+    forall t r, ctrace cfg (cb_exec f cfg cbs fired i c b fb) t (inl r) -> G fb t r.
+  Proof.
+    intros IH Hn t r H. unfold cb_exec in H.
+    destruct (cb_once c && existsb (Nat.eqb i) fired) eqn:Eo; [pinv H; discriminate|].
+    cbv zeta in H. pinv H.
+    assert (Hk : forall t, ctrace cfg (if cb_complete c then Ret fb
+                   else cb_loop f cfg cbs (if cb_reset c then [] else b) fb
+                                (if cb_once c then i :: fired else fired)) t (inl r) ->
+                 G fb (ONote TAG_CB (print_dec (N.of_nat i) ++ [58] ++ b) :: t) r).
+    { intros t' Ht'. destruct (cb_complete c) eqn:Ec.
+      - pinv Ht'. inversion H1; subst. split; [simpl; rewrite app_nil_r; auto|].
+        exists [], i, c, b. simpl. auto.
+      - apply IH in Ht'. destruct Ht' as [E [n0 [i' [c' [bb [E1 [E2 E3]]]]]]].
+        split; auto. exists ((TAG_CB, print_dec (N.of_nat i) ++ [58] ++ b) :: n0), i', c', bb.
+        change (notes_of (ONote TAG_CB (print_dec (N.of_nat i) ++ [58] ++ b) :: t'))
+          with ((TAG_CB, print_dec (N.of_nat i) ++ [58] ++ b) :: notes_of t').
+        rewrite E1. auto. }
+    destruct (cb_answer c).
+    - pinv H. pinv H. apply Hk in H. exact H.
+    - apply Hk; auto.
+  Qed.
+
+  Lemma cb_loop_complete : forall fuel b fb fired t r,
+    ctrace cfg (cb_loop fuel cfg cbs b fb fired) t (inl r) -> G fb t r.
+  Proof.
+    induction fuel as [|f IH]; intros b fb fired t r H.
+    - simpl in H. pinv H. discriminate.
+    - rewrite cb_loop_S in H. destruct (first_firing cbs b 0) as [[i c]|] eqn:Hff.
+      + apply first_firing_spec in Hff. eapply cb_exec_complete; eauto. tauto.
+      + pinv H.
+        * destruct (first_firing cbs (b ++ rb) 0) as [[i c]|] eqn:Hff'.
+          -- apply first_firing_spec in Hff'. eapply cb_exec_complete in H; eauto; [|tauto].
+             destruct H as [E Hn]. split; auto.
+             rewrite E. unfold reads_of. simpl. rewrite <- app_assoc. auto.
+          -- pinv H; discriminate.
+        * pinv H. discriminate.
+  Qed.
+End CbComplete.
+
+Theorem callbacks_complete : forall cfg input cbs t r,
+  ctrace cfg (send_with_callbacks cfg input cbs) t (inl r) ->
+  r = reads_of t
+  /\ exists n0 i c bb, notes_of t = n0 ++ [(TAG_CB, print_dec (N.of_nat i) ++ [58] ++ bb)]
+                       /\ nth_error cbs i = Some c /\ cb_complete c = true.
+Proof.
+  intros cfg input cbs t r H. unfold send_with_callbacks in H.
+  destruct input.
+  - apply cb_loop_complete in H. exact H.
+  - pinv H. pinv H. apply cb_loop_complete in H. exact H.
 Qed.
